@@ -46,8 +46,10 @@ def main():
                 'design_ref': 'DESIGN.md section 3, %s' % p,
             },
             'level_note': 'Trusted base: ' + '; '.join(meta.get('assumptions', [])) +
-                          '. The check decides the named structural clauses on every path / table entry of the tree '
-                          'it is run on; it does not execute repository code.',
+                          '. The check decides the named clauses on every path / table entry of the tree it is run on; '
+                          'clauses marked E-SEQ are decided by interpreting the parsed function bodies with the checker\'s own '
+                          'evaluator on the stated finite / tagged input family (a necessary condition of the property, stated as '
+                          'such in the evidence); nothing of the repository is imported, built or executed.',
             'technique': meta.get('technique', 'static analysis: ' + meta['explanation'][:160]),
         })
     man = {
@@ -66,7 +68,9 @@ def main():
             'serves_properties': [c['property_id'] for c in checks],
             'kind_free_text': 'repository-specific static analysis: clang JSON AST (type-resolved C++), CPython ast, '
                               'shared IR; path/typestate rules, abstract interpretation (intervals, difference bounds), '
-                              'guarded normal forms for sibling agreement, table model with constant propagation',
+                              'guarded normal forms for sibling agreement, table model with constant propagation, '
+                              'abstract evaluation of parsed bodies (typed C++ IR, Python ast) on small stated input families '
+                              '(tagged miniature database, model time-zone library)',
         }],
         'checks': checks,
         'not_applicable': na,
